@@ -13,8 +13,10 @@
     Validator::validate      -> `validate`     (help-on-empty, missing subcommand, conflicts, required, requires)
     ArgMatcher::propagate_globals -> `mergeGlobal`
 
-  Out of model (the translator refuses grammars that use them): `env`, `num_args`, `last`,
-  `trailing_var_arg`, `allow_hyphen_values`, `allow_negative_numbers`, `require_equals`, groups with
+  Modelled because they change what an accepted argv MEANS: `trailing_var_arg`, `allow_hyphen_values`, `last`.
+  Out of model (translate/cli_grammar.py carries them as data, lists them in `Gen.CliGrammar.unmodelled`
+  and reports a weakened tie): `env`, `num_args`,
+  `allow_negative_numbers`, `require_equals`, groups with
   `required`/`multiple(false)`, `exclusive`, `overrides_with`, `default_missing_value`, value terminators,
   external/flag subcommands, subcommand inference, non-UTF-8 arguments, nested subcommands.
   Everything is structural recursion over the token list, so `decide` evaluates it in the kernel.
@@ -87,6 +89,9 @@ structure Arg where
   conflicts : List Str := []
   requires : List Str := []
   global : Bool := false
+  trailingVarArg : Bool := false         -- `trailing_var_arg`: from its first value on, everything is a value
+  allowHyphen : Bool := false            -- `allow_hyphen_values`
+  last : Bool := false                   -- `last`: only after `--`
   deriving DecidableEq, Repr
 
 structure Cmd where
@@ -321,10 +326,16 @@ def stepShort (args : List Arg) : St → Str → Except ClapError St
         | .error e => .error e
         | .ok st => stepShort args st rest
 
-/-- the positional branch of the main loop; `hasSubs` selects the error kind (`match_arg_error`) -/
+/-- the positional the next free-standing value goes to: after `--` a `last` positional takes over -/
+def posAt (poss : List Arg) (st : St) : Option Arg :=
+  if st.trailing && poss.any (·.last) then poss.getLast? else poss[st.posIdx]?
+
+/-- the positional branch of the main loop; `subs` selects the error kind (`match_arg_error`) -/
 def stepPositional (poss : List Arg) (subs : List Cmd) (st : St) (tok : Str) : Except ClapError St :=
-  match poss[st.posIdx]? with
+  match posAt poss st with
   | some a =>
+    if a.last && !st.trailing then .error .unknownArgument
+    else
     let same := match st.pending with
       | some (p, _) => seq p.id a.id && a.multi
       | none => false
@@ -336,11 +347,37 @@ def stepPositional (poss : List Arg) (subs : List Cmd) (st : St) (tok : Str) : E
         | none => []
       .ok { st with pending := some (a, vals ++ [tok]),
                     posIdx := if a.multi then st.posIdx else st.posIdx + 1,
-                    pstate := if a.multi then .pos else .done }
+                    pstate := if a.multi then .pos else .done,
+                    trailing := st.trailing || a.trailingVarArg }
   | none =>
     if subs.isEmpty then .error .unknownArgument
     else if st.trailing && ((findSub subs tok).isSome || seq tok helpName) then .error .unknownArgument
     else .error .invalidSubcommand
+
+/-- a token that is taken as a value: of the option waiting for one, else of the next positional -/
+def stepValue (poss : List Arg) (subs : List Cmd) (st : St) (tok : Str) : Except ClapError St :=
+  if st.pstate.isOpt then
+    match st.pending with
+    | some (a, vs) => .ok { st with pending := some (a, vs ++ [tok]), pstate := .done }
+    | none => .error .unknownArgument     -- unreachable: `.opt` implies a pending option
+  else stepPositional poss subs st tok
+
+/-- `ParseResult::MaybeHyphenValue`: a token that looks like a flag is a value after all, because the
+    argument being filled (`ParseState::Opt | Pos`) allows hyphen values, or because it names no
+    argument and the next positional allows them -/
+def hyphenValue (args poss : List Arg) (st : St) (tok : Str) : Bool :=
+  (match st.pending with
+   | some (a, _) => !st.pstate.isDone && a.allowHyphen
+   | none => false) ||
+  (match tok with
+   | [45, 45] => false
+   | 45 :: 45 :: body =>
+     (findLong args (splitEq body).1).isNone &&
+       (match posAt poss st with | some a => a.allowHyphen && !a.last | none => false)
+   | 45 :: c :: body =>
+     (c :: body).any (fun ch => (findShort args ch).isNone) &&
+       (match posAt poss st with | some a => a.allowHyphen && !a.last | none => false)
+   | _ => false)
 
 inductive Outcome
   | finished (st : St)
@@ -359,6 +396,10 @@ def run (args poss : List Arg) (subs : List Cmd) : St → List Str → Except Cl
         match stepPositional poss subs st tok with
         | .error e => .error e
         | .ok st => run args poss subs st rest
+      else if hyphenValue args poss st tok then
+        match stepValue poss subs st tok with
+        | .error e => .error e
+        | .ok st => run args poss subs st rest
       else match tok with
       | [45, 45] => run args poss subs { st with trailing := true } rest
       | 45 :: 45 :: body =>
@@ -370,14 +411,9 @@ def run (args poss : List Arg) (subs : List Cmd) : St → List Str → Except Cl
         | .error e => .error e
         | .ok st => run args poss subs st rest
       | _ =>
-        if st.pstate.isOpt then
-          match st.pending with
-          | some (a, vs) => run args poss subs { st with pending := some (a, vs ++ [tok]), pstate := .done } rest
-          | none => .error .unknownArgument     -- unreachable: `.opt` implies a pending option
-        else
-          match stepPositional poss subs st tok with
-          | .error e => .error e
-          | .ok st => run args poss subs st rest
+        match stepValue poss subs st tok with
+        | .error e => .error e
+        | .ok st => run args poss subs st rest
 
 -- validation -------------------------------------------------------------------------------------
 
